@@ -218,7 +218,7 @@ Lemma prepared_shape : forall e optimize u p e1 ast,
   compile_program (4 * List.length (escript e) + 40) ast = CompOk u /\
   escript e1 = escript e /\ efns e1 = efns e /\ ectx e1 = None /\
   emachine e1 = Some (mkMachine p None) /\
-  eenv e1 = (if optimize then env_set (eenv e) optimize_var (VBool true) else eenv e).
+  eenv e1 = (if optimize then env_set (eenv e) optimize_var (VBool true) else env_unset (eenv e) optimize_var).
 Proof.
   intros e optimize u p e1 ast Hctx Hprep Hparse.
   apply ApiProofs.prepare_ok in Hprep. destruct Hprep as [[ast' [Ep Ec]] [_ ->]].
@@ -227,13 +227,13 @@ Proof.
 Qed.
 
 (* the hypothesis "not optimized, or optimized and validated" of the theorems below, from
-   what Prepare did: without the flag and without the OPTIMIZE variable nothing is optimized;
+   what Prepare did: without the flag nothing is optimized, whatever the variables hold (no scope is open);
    with the flag, it is enough that the validated optimizer accepts the compiled program
    (it then returns the very program Prepare stored) *)
 Lemma not_optimized : forall e u p e1,
-  env_get (eenv e) optimize_var = None -> prepare o e false = (PrepOk u p, e1) ->
+  scopes (eenv e) = [] -> prepare o e false = (PrepOk u p, e1) ->
   p = u \/ optimize_program_safe u = Some p.
-Proof. intros e u p e1 Hn H. left. exact (proj1 (ApiProofs.nooptimize_only o e u p e1 Hn H)). Qed.
+Proof. intros e u p e1 Hc H. left. exact (ApiProofs.nooptimize_only o e u p e1 H Hc). Qed.
 
 Lemma optimized_validated : forall e u p e1 p',
   prepare o e true = (PrepOk u p, e1) -> optimize_program_safe u = Some p' ->
